@@ -59,6 +59,51 @@ def returned_by_match(func, match_edges, ret_consts):
     return results
 
 
+def _countdown_walk(F, cnt, conv):
+    """`for (p = list; left > 0; p++, left--) ... convert(*p)`: the count is used up one per item while a cursor
+    moves one item on, both in the same step, and the loop runs while items are left"""
+    a0 = strip(arg(conv, 0))
+    cur = None
+    if a0 is not None and a0.k == 'UnaryOperator' and a0.get('op') == '*':
+        cur = decl_of(a0.ch[0])
+    elif a0 is not None and a0.k == 'ArraySubscriptExpr' and strip(a0.ch[1]).get('v') == 0:
+        cur = decl_of(a0.ch[0])
+    if cur is None or cur.get('kind') != 'var':
+        return False
+    cond_ok = False
+    for bb in F.blocks.values():
+        cc = strip(bb.cond) if bb.cond is not None else None
+        if cc is None:
+            continue
+        if cc.k == 'BinaryOperator' and cc['op'] in ('>', '!=') and (decl_of(cc.ch[0]) or {}).get('id') == cnt and \
+                strip(cc.ch[1]).get('v') == 0:
+            cond_ok = True
+        if cc.k == 'BinaryOperator' and cc['op'] == '<' and (decl_of(cc.ch[1]) or {}).get('id') == cnt and \
+                strip(cc.ch[0]).get('v') == 0:
+            cond_ok = True
+    if not cond_ok:
+        return False
+    pos = C.elem_positions(F)
+    steps = {cnt: [], cur['id']: []}
+    for n in F.body.walk():
+        t = None
+        if n.k == 'CompoundAssignOperator' or (n.k == 'UnaryOperator' and n.get('op') in ('++', '--', '&')) or \
+                (n.k == 'BinaryOperator' and n.get('op') == '='):
+            t = (decl_of(n.ch[0]) or {}).get('id') if strip(n.ch[0]).k == 'DeclRefExpr' else None
+        if t in steps:
+            steps[t].append(n)
+    down = [n for n in steps[cnt] if not (n.k == 'BinaryOperator' and strip(n.ch[1]).k == 'CallExpr')]
+    up = [n for n in steps[cur['id']] if n.k != 'BinaryOperator']
+    starts = [n for n in steps[cur['id']] if n.k == 'BinaryOperator']
+    if len(down) != 1 or len(up) != 1 or len(starts) > 1:
+        return False
+    d, u = down[0], up[0]
+    if not (d.k == 'UnaryOperator' and d.get('op') == '--') or not (u.k == 'UnaryOperator' and u.get('op') == '++'):
+        return False
+    pd, pu = pos.get(d.id), pos.get(u.id)
+    return pd is not None and pu is not None and pd[0] == pu[0]
+
+
 def run(ctx):
     chk = ctx.chk
     chk.rule('U1', 'the identity compared is the real uid: getuid() and no other identity query', floor=3)
@@ -177,6 +222,8 @@ def run(ctx):
                 if cc is not None and cc.k == 'BinaryOperator' and cc['op'] in ('<', '!=') and \
                         (decl_of(cc.ch[1]) or {}).get('id') == cnt:
                     bound_ok = True
+            if not bound_ok and conv is not None:
+                bound_ok = _countdown_walk(F, cnt, conv)
             chk.ob('U3', 'loop-bounded-by-item-count[%s]' % fname, bound_ok, hc[0].where(), fname,
                    'the loop over the items is not bounded by the count returned by %s' % hc[0]['callee'])
             # the text handed to the list parser is a COMPLETE private copy of the filter argument: strdup(arg) (or
